@@ -366,8 +366,25 @@ func c04CheckRun(c c04Case, base, got c04Run, chain []c04Icpt, rec *evid.Recorde
 				return failf("token interceptors were invoked %v times: not all the same", counts)
 			}
 		}
-		if counts[0] < nNext {
-			return failf("token interceptor invoked %d times for %d tokens", counts[0], nNext)
+		// once per token: what interceptor #0 obtained is the token stream itself, in
+		// order, nothing skipped and nothing twice (end of input may be requested
+		// repeatedly); a parse that reports errors may stop asking before the end
+		k := 0
+		for _, e := range got.tokLog {
+			if e.idx != 0 {
+				continue
+			}
+			if k < nNext {
+				if !reflect.DeepEqual(e.ret, got.toks[k]) {
+					return failf("token interceptor call %d obtained %q at %d:%d, the %d-th token of the input is %q at %d:%d\nsrc %q", k, e.ret.Literal, e.ret.Start.Line, e.ret.Start.Column, k, got.toks[k].Literal, got.toks[k].Start.Line, got.toks[k].Start.Column, c.Src)
+				}
+			} else if e.ret.Type != token.EOF {
+				return failf("token interceptor call %d obtained %q after the end of input", k, e.ret.Literal)
+			}
+			k++
+		}
+		if base.err == nil && counts[0] < nNext {
+			return failf("token interceptor invoked %d times for %d tokens of an input that parses without error", counts[0], nNext)
 		}
 	}
 	if kinds := map[string]int{"stmt": nStmt, "expr": nExpr, "tok": nTok}; kinds["stmt"] >= 2 || kinds["expr"] >= 2 || kinds["tok"] >= 2 || exprRe >= 0 {
